@@ -98,6 +98,9 @@ const (
 	EDynIndex = "dynindex" // A[0] array var, A[1] index expr (masked to a power of two length)
 	EField    = "field"    // A[0] struct var, Name = field
 	ECall     = "call"     // Name = function, A = args (single result)
+	// EComposite is a constant composite literal: T is an array or struct
+	// type, A holds one literal per element / field, in order.
+	EComposite = "composite"
 )
 
 // Expr is a typed expression.
@@ -392,6 +395,17 @@ func (e *Expr) String() string {
 			args = append(args, a.String())
 		}
 		return fmt.Sprintf("%s(%s)", e.Name, strings.Join(args, ", "))
+	case EComposite:
+		var args []string
+		for i, a := range e.A {
+			if e.T.K == KStruct && e.Name != "" {
+				// keyed form: Name holds the comma separated field names
+				args = append(args, strings.Split(e.Name, ",")[i]+": "+a.String())
+			} else {
+				args = append(args, a.String())
+			}
+		}
+		return fmt.Sprintf("%s{%s}", e.T, strings.Join(args, ", "))
 	}
 	panic("print: unknown expression " + e.Op)
 }
